@@ -18,15 +18,24 @@ pub struct Case {
     pub chunks: Vec<u16>,
 }
 
+fn kind_for(k: usize) -> FaultKind {
+    // rotate through the error kinds a device may report (never Interrupted)
+    if k % 3 == 0 {
+        FaultKind::Hard
+    } else {
+        FaultKind::Kind((k / 3) as u8)
+    }
+}
+
 fn run_writer(p: &Program, fault: Option<usize>, chunks: &[u16]) -> (Trace, MemDev, Result<(), String>) {
     let dev = MemDev::new();
     {
         let mut st = dev.st.borrow_mut();
-        st.fault_at = fault.map(|k| (k, FaultKind::Hard));
+        st.fault_at = fault.map(|k| (k, kind_for(k)));
         st.chunks = chunks.iter().map(|c| *c as usize).collect();
     }
     let h = dev.handle();
-    let mut tr = Trace::default();
+    let mut tr = Trace { retry_finalize: fault.is_some(), ..Trace::default() };
     let r = guard(|| prog::exec(p, dev, &mut tr));
     (tr, h, r)
 }
@@ -37,7 +46,7 @@ fn run_reader(bytes: &[u8], free: &[(u64, u64)], fault: Option<usize>, chunks: &
     let dev = MemDev::with_data(bytes.to_vec());
     {
         let mut st = dev.st.borrow_mut();
-        st.fault_at = fault.map(|k| (k, FaultKind::Hard));
+        st.fault_at = fault.map(|k| (k, kind_for(k)));
         st.chunks = chunks.iter().map(|c| *c as usize).collect();
     }
     let h = dev.handle();
@@ -87,7 +96,8 @@ impl Check for C16 {
     }
     fn rule() -> String {
         "Small writer programs and the reader program {open, XML, descriptors, raw + simple iteration of every cloud, every blob} x EVERY index k \
-         of the device operation sequence (read, write, seek, flush all counted) with one injected hard error (ErrorKind::Other): the public call \
+         of the device operation sequence (read, write, seek, flush all counted) with one injected hard error (the error kind rotates through \
+         Other, InvalidInput, InvalidData, UnexpectedEof, PermissionDenied, BrokenPipe, TimedOut, NotFound, WriteZero): the public call \
          during which the fault fired must return Err (iterators Some(Err)), never panic, never report success; a caller stops at the first Err; \
          if top-level finalize reports success the device equals the fault-free file. Faults firing only inside Drop have no call to report to and \
          are counted, not asserted. Short transfers: the same programs on a device that serves reads and writes in generated chunk sizes (1..) must \
@@ -151,6 +161,26 @@ impl Check for C16 {
                 } else {
                     v.infra(format!("fault position {k} was never reached although the fault-free run used {wops} operations"));
                     return v;
+                }
+            }
+            if tr.finalized_on_retry {
+                // the first finalize call failed (reported), a second call reported success: the device must hold a complete file
+                v.nt("finalize_called_again_after_a_fault");
+                let a = guard(|| read_scene(MemDev::with_data(h.bytes())));
+                let b = guard(|| read_scene(MemDev::with_data(good.clone())));
+                match (a, b) {
+                    (Ok(Ok((a, _))), Ok(Ok((b, _)))) => {
+                        if let Some(d) = diff_scene(&b, &a, "fault_free", "after_retried_finalize") {
+                            v.fail(format!("device fault at operation {k}: finalize failed, a second finalize call reported success, but the file differs: {d}"));
+                            v.execs = execs;
+                            return v;
+                        }
+                    }
+                    (a, _) => {
+                        v.fail(format!("device fault at operation {k}: finalize failed, a second finalize call reported success, but the device does not hold a complete file ({})", match a { Ok(Err(e)) => e, Err(p) => p, _ => "?".into() }));
+                        v.execs = execs;
+                        return v;
+                    }
                 }
             }
             if tr.finalized && h.bytes() != good {
